@@ -141,13 +141,15 @@ for kind in ('mem', 'file', 's3'):
     for k in ADVERSARIAL_KEYS:
         vec += 1
         rec = cas.create_new_recording('Cat')
-        val = {'n': [1, (2, 3), {'x': None}], 't': (1, 2), 'k': k}
-        rec.set_data(k, val); rec.set_data('plain', 5); rec.add_metadata({'mk': k})
+        shared = [1, 2]
+        val = {'n': [1, (2, 3), {'x': None}], 't': (1, 2), 'k': k, 's1': shared, 's2': shared}
+        meta = {'mk': k, 'ms1': shared, 'ms2': [shared, shared]}
+        rec.set_data(k, val); rec.set_data('plain', 5); rec.set_data('Upper', [shared]); rec.add_metadata(meta)
         cas.save_recording(rec)
         try:
             got = cas.get_recording(rec.id)
-            ok = sorted(got.get_all_keys()) == sorted(set([k, 'plain'])) and got.get_data(k) == val and got.get_data('plain') == 5 \
-                and got.get_metadata() == {'mk': k} and cas.get_recording_metadata(rec.id) == {'mk': k}
+            ok = sorted(got.get_all_keys()) == sorted(set([k, 'plain', 'Upper'])) and got.get_data(k) == val and got.get_data('plain') == 5 \
+                and got.get_metadata() == meta and cas.get_recording_metadata(rec.id) == meta
         except Exception as ex:
             ok = False
         if not ok and not (kind == 's3' and k == '_metadata') and not k.startswith('py/'):
